@@ -70,6 +70,12 @@ Theorem C12_ps_symmetric_linear : forall h t, is_linear t = true ->
 Proof. exact ps_symmetric_linear_all. Qed.
 Print Assumptions C12_ps_symmetric_linear.
 
+(* --- precisely: with distinct ids the step is time-symmetric IF AND ONLY IF the tree is a chain *)
+Theorem C12_ps_symmetric_iff_linear : forall h t, NoDup (ids t) ->
+  (phys (bwd h None t) = map mirror (rev (phys (fwd h None t))) <-> is_linear t = true).
+Proof. exact ps_symmetric_iff_linear. Qed.
+Print Assumptions C12_ps_symmetric_iff_linear.
+
 (* --- ... and is not on a branching tree (stated as it is true; not demanded by the property, DESIGN §12) *)
 Theorem C12_ps_not_symmetric_branching_refuted :
   exists t h, NoDup (ids t) /\ phys (bwd h None t) <> map mirror (rev (phys (fwd h None t))).
